@@ -6,9 +6,11 @@ text was printed from - evaluated directly (leaves via the library's term/hedge/
 workload did not register the monitor falls back to its own recursive-descent parse of the text."""
 from __future__ import annotations
 
+import copy
 import itertools
 
 import numpy as np
+from math import nan
 
 from ..core import import_library
 from ..gen import engines as E
@@ -26,6 +28,7 @@ class AntecedentMonitor:
         self.oracle = W.Oracle(fl)
         self.expected = {}  # antecedent text -> generator tree (parser format)
         self.weights = {}  # antecedent text -> weight the workload gave the rule (ground truth; else the rule's own)
+        self.engines = {}  # antecedent text -> engine the workload loaded the rule for (its variables are the ones meant)
 
     def install(self, probe):
         fl = self.fl
@@ -72,6 +75,9 @@ class AntecedentMonitor:
         conj, disj = args[1], args[2]
         if exc is not None or not rule.antecedent.is_loaded():
             ctx.hit("event:activate_with raised")
+            if exc is not None and rule.antecedent.is_loaded() and rule.antecedent.text in self.expected and conj is not None and disj is not None and not isinstance(exc, (MemoryError, RecursionError)):
+                # an antecedent of the workload: grammatical, loaded, both connectives given, values of one common shape
+                ctx.violation(f"evaluating a loaded grammatical antecedent raises {type(exc).__name__}", {"rule": rule.text, "conjunction": type(conj).__name__, "disjunction": type(disj).__name__, "error": repr(exc)[:200]}, "a degree", repr(exc)[:200])
             return
         for op in (conj, disj):
             if op is not None and type(op).__name__ not in N.REF:
@@ -87,6 +93,15 @@ class AntecedentMonitor:
             ctx.hit("out_of_domain:text outside the documented grammar")
             return
         variables = self.variables_of(rule.antecedent.expression, {})
+        owner = self.engines.get(text)
+        if owner is not None:
+            # the rule belongs to this engine: `variable` in the grammar is the engine's variable of that name
+            ctx.hit("compare:variables resolved in the engine the rule belongs to")
+            for name, bound in list(variables.items()):
+                mine = next((v for v in owner.variables if v.name == name), None)
+                if mine is not None and mine is not bound:
+                    ctx.hit("event:a proposition is bound to a variable object outside its engine")
+                    variables[name] = mine
         contrib = {v.name: [(a.term, a.degree, a.implication) for a in v.fuzzy.terms] for v in variables.values() if isinstance(v, fl.OutputVariable)}
         names = [t.name for v in variables.values() for t in v.terms]
         if any(len([1 for t in v.terms if t.name == n]) > 1 for v in variables.values() for n in {t.name for t in v.terms}):
@@ -230,12 +245,46 @@ def run(ctx):
             # self-check of the oracle's own parser against the generator (so the fall-back reading is trustworthy)
             if W.parse_antecedent(text) != W.from_spec(tree):
                 ctx.hit("inconclusive:own parser disagrees with the generator tree")
-            rows = E.rows(rnd, dict(inputs=spec_inputs), 4)
+            source = None
+            if i % 5 == 0:
+                # the rule as it arrives in a duplicate of its engine (copy(), deepcopy, FLL text): the duplicate's rule reads the
+                # duplicate's variables, whatever the source engine holds meanwhile
+                how = rnd.choice(["copy", "copy", "deepcopy", "fll"])
+                engine.rule_blocks.append(fl.RuleBlock("rb", rules=[rule]))
+                try:
+                    if how == "copy":
+                        dup = engine.copy()
+                    elif how == "deepcopy":
+                        dup = copy.deepcopy(engine)
+                    else:
+                        with fl.settings.context(decimals=17):
+                            dup = fl.FllImporter().from_string(fl.FllExporter().to_string(engine))
+                        for a, b in zip(engine.variables, dup.variables):
+                            b.enabled = a.enabled
+                        dup.output_variables[0].fuzzy.terms.extend(fl.Activated(dup.output_variables[0].term(a.term.name), a.degree, a.implication) for a in ov.fuzzy.terms)
+                        dup.rule_blocks[0].rules[0].weight = rule.weight
+                    source, engine, rule = engine, dup, dup.rule_blocks[0].rules[0]
+                    ctx.hit("route:rule of a duplicated engine (" + how + ")")
+                except Exception as ex:
+                    ctx.hit("inconclusive:engine could not be duplicated:" + type(ex).__name__)
+                    engine.rule_blocks.clear()
+            mon.engines[key] = engine
+            rows = E.rows(rnd, dict(inputs=spec_inputs), 6)
             for k, row in enumerate(rows):
+                if source is not None:
+                    for v in source.input_variables:
+                        v.value = rnd.choice([nan, v.minimum, v.maximum, rnd.uniform(v.minimum, v.maximum)])
                 if k == 3:
                     arr = np.array(rows, dtype=float)
                     for j, v in enumerate(engine.input_variables):
                         v.value = arr[:, j]
+                elif k == 4:
+                    # a grid of values per variable: a 2 x 3 block, or a column
+                    arr = np.array(rows, dtype=float)
+                    block = rnd.choice([(2, 3), (3, 2), (6, 1), (1, 6)])
+                    for j, v in enumerate(engine.input_variables):
+                        v.value = arr[:, j].reshape(block)
+                    ctx.hit("input:2-D block of values per variable")
                 else:
                     for v, x in zip(engine.input_variables, row):
                         v.value = x
@@ -245,11 +294,12 @@ def run(ctx):
                     pass
             mon.expected.pop(key, None)
             mon.weights.pop(key, None)
+            mon.engines.pop(key, None)
             if i < 3:
                 ctx.sample("antecedent", {"text": rule_text, "postfix": E.tree_postfix(tree), "conjunction": tname, "disjunction": sname, "row": rows[0], "degree": rule.activation_degree})
         probe.report(ctx)
         reach.report(ctx)
-    ctx.require("hook:Rule.activate_with", "hook:Antecedent.load", "compare:degree (generator tree)", "compare:postfix (generator tree)", "discriminates:swapped precedence", "discriminates:right associativity", "discriminates:hedge order", "piece:any", "piece:disabled variable", "piece:output variable proposition", "piece:weight", "shape:mixes and/or", "event:rule object reused for another text")
+    ctx.require("hook:Rule.activate_with", "hook:Antecedent.load", "compare:degree (generator tree)", "compare:postfix (generator tree)", "discriminates:swapped precedence", "discriminates:right associativity", "discriminates:hedge order", "piece:any", "piece:disabled variable", "piece:output variable proposition", "piece:weight", "shape:mixes and/or", "event:rule object reused for another text", "route:rule of a duplicated engine (copy)", "route:rule of a duplicated engine (deepcopy)", "route:rule of a duplicated engine (fll)", "input:2-D block of values per variable")
 
 
 def passive(ctx, fl, probe):
